@@ -1,6 +1,7 @@
 import PartituraModel.Wire
 import PartituraModel.Model.ScoreMidi
 import PartituraModel.Model.ScoreMidiSpec
+import PartituraModel.Model.ScoreMidiImportSpec
 import PartituraModel.Model.MidiObject
 import PartituraModel.Model.ScoreEdit
 import PartituraModel.Model.ScoreMidiDefaults
@@ -170,6 +171,25 @@ def specText (cells : Bool) (mode : Nat) (a : Anacrusis) (mn vel : Nat) (ps : Li
     let cellPart := if cells then fmtCells (writtenCells mode p o ktc ps) else "-"
     s!"{fmtRat o}|{fmtList (fun tr => fmtList fmtRec ((routedTo p o vel ktc ps tr).foldr insRec [])) trs}|{fmtList (fun tr => fmtEvsSorted (trackKS p o ktc ps tr)) trs}|{tsPart}|{fmtList (fun tr => fmtEvsSorted (trackTempo p o ps tr)) trs}|{fmtRows (scoreRows ps)}|{cellPart}"
 
+/-- the vocabulary of the theorems about the signatures after the round trip (Model/ScoreMidiImportSpec.lean,
+    `import_signatures_spec`), from the SCORE alone: the part numbers import mode `imode` hands out and, per part, the
+    key signatures (and, `withTS`, the time signatures) it must get -/
+def impSpecText (withTS : Bool) (imode mode : Nat) (a : Anacrusis) (mn : Nat) (ps : List PartIn) : Option String :=
+  (origin a (ps.map (·.base))).bind fun o =>
+  (mapToTrackChannel mode (noteKeys ps)).map fun tcs =>
+    let p := exportPpq ps mn
+    let ktc := (noteKeys ps).zip tcs
+    fmtList (fun q : Option Nat =>
+      match q with
+      | none => "None"
+      | some pid =>
+        fmtTuple [fmtNat pid,
+          fmtList (fun k : Int × String => fmtTuple [fmtInt k.1, k.2]) (specImportedKS imode p o ktc ps pid),
+          if withTS then
+            fmtList (fun t : Int × Int × Int => fmtTuple [fmtInt t.1, fmtInt t.2.1, fmtInt t.2.2]) (specImportedTS a imode p o ktc ps pid)
+          else "-"])
+      (importedPartIds imode tcs)
+
 def impText (r : Imported) : String :=
   s!"{fmtList fmtPartOut r.parts}|{fmtList (fun t => fmtTuple [fmtInt t.1, fmtNat t.2]) (r.tempos.foldr insTempo [])}"
 
@@ -251,7 +271,14 @@ def handle (ts : List String) : String :=
     orErr <| (run (do let fl ← nat; let mode ← nat; let a ← pAnac; let mn ← nat; let vel ← nat; let ps ← list pPart
                       pure (fl, mode, a, mn, vel, ps)) rest).bind fun (fl, mode, a, mn, vel, ps) =>
       (saveScoreMidi mode a mn vel ps).map fun e =>
-        s!"{e.ppq}|{fmtTracks e.tracks}|{fmtTracks (e.tracks.map (deltasFrom 0))}#{orErr (specText (fl = 1) mode a mn vel ps)}"
+        -- flag bits: 1 = with the cells, 2 = then the signatures of the same-mode import (4 = with its time signatures)
+        let tail := if fl / 2 % 2 = 1 then "#" ++ orErr (impSpecText (fl / 4 % 2 = 1) mode mode a mn ps) else ""
+        s!"{e.ppq}|{fmtTracks e.tracks}|{fmtTracks (e.tracks.map (deltasFrom 0))}#{orErr (specText (fl % 2 = 1) mode a mn vel ps)}{tail}"
+  | "impspec" :: rest =>
+    -- the signatures an import in mode `imode` of the export in mode `mode` must give (flag 1: with time signatures)
+    orErr <| (run (do let fl ← nat; let imode ← nat; let mode ← nat; let a ← pAnac; let mn ← nat; let ps ← list pPart
+                      pure (fl, imode, mode, a, mn, ps)) rest).bind fun (fl, imode, mode, a, mn, ps) =>
+      impSpecText (fl = 1) imode mode a mn ps
   | "rows" :: rest =>
     -- the notes of an import in musical time (`importedRows`): origin, mode, ticks, tracks
     orErr <| (run (do let o ← rat; let mode ← nat; let ticks ← nat; let trs ← list pTrack; pure (o, mode, ticks, trs)) rest).bind
